@@ -283,7 +283,9 @@ pub fn run(args: &Args) -> ! {
     let hist_depth = if thorough { 3 } else { 2 };
     for t in trees.iter().filter(|t| t.len() >= 2 && t.len() <= 3) {
         for (ci, (_, c)) in cfgs.iter().enumerate() {
-            if !thorough && ci != 0 {
+            // quick: the default configuration and strict.requirePath (without the fuzzy
+            // fallback a stale or orphaned module-tree node is not papered over)
+            if !thorough && ci != 0 && ci != 5 {
                 continue;
             }
             // histories of remove / re-add over the tree's files
@@ -348,34 +350,45 @@ pub fn run(args: &Args) -> ! {
         // one group per (oracle, require string): different require strings never mask each other
         per.entry(format!("{}\u{1}{}", x.2.class, x.1)).or_default().push(x);
     }
+    // every raw case is reduced on its own (deterministic function of the case): a run cut short
+    // reports a subset of the complete run's fingerprints
+    let memo: Mutex<std::collections::HashMap<String, bool>> = Mutex::new(std::collections::HashMap::new());
+    let mut jobs: Vec<(String, Case, String, Finding)> = Vec::new();
     for (group, v) in per {
         let class = group.split('\u{1}').next().unwrap_or("").to_string();
-        let total = v.len() as u64;
-        let mut first_key = None;
-        for (case, r, f) in v.iter().take(3) {
-            let fails = |c: &Case| valid(c) && c33_eval(c).0.iter().any(|(rr, ff)| rr == r && ff.class == class);
-            if !fails(case) {
-                all.violation(Violation { signature: format!("nondeterministic:{class}"), witness: witness(case, r), detail: f.detail.clone() });
-                continue;
-            }
-            let mut budget = 300usize;
-            let min = minimise(case, &fails, &mut budget);
-            // keep the probe text intact in the witness (line deletion may have trimmed it)
-            let detail = c33_eval(&min).0.into_iter().find(|(rr, ff)| rr == r && ff.class == class).map(|x| x.1.detail).unwrap_or(f.detail.clone());
-            let viol = Violation { signature: class.clone(), witness: witness(&min, r), detail: format!("{detail}  (config {}; history: {})", min.configs.first().cloned().unwrap_or(json!({})), min.describe()) };
-            if first_key.is_none() {
-                first_key = Some(format!("{}:{}", viol.signature, viol.witness));
-            }
-            all.violation(viol);
+        for (case, r, f) in v {
+            jobs.push((class.clone(), case, r, f));
         }
-        if total > 3 {
-            all.raw_violating_cases += total - 3;
-            if let Some(k) = first_key {
-                if let Some(e) = all.violations.get_mut(&k) {
-                    e.1 += total - 3;
-                }
+    }
+    let out: Mutex<Vec<Violation>> = Mutex::new(Vec::new());
+    let far = Deadline::after_secs(6.0 * 3600.0);
+    let _ = par_range(jobs.len() as u64, args.threads, &far, |i, _| {
+        let (class, case, r, f) = &jobs[i as usize];
+        let fails = |c: &Case| {
+            if !valid(c) {
+                return false;
             }
+            let key = format!("{class}\u{1}{r}\u{1}{}", serde_json::to_string(&c.to_json()).unwrap_or_default());
+            if let Some(b) = memo.lock().unwrap().get(&key) {
+                return *b;
+            }
+            let b = c33_eval(c).0.iter().any(|(rr, ff)| rr == r && ff.class == *class);
+            memo.lock().unwrap().insert(key, b);
+            b
+        };
+        if !c33_eval(case).0.iter().any(|(rr, ff)| rr == r && ff.class == *class) {
+            out.lock().unwrap().push(Violation { signature: format!("nondeterministic:{class}"), witness: witness(case, r), detail: f.detail.clone() });
+            return;
         }
+        let mut budget = 250usize;
+        let min = minimise(case, &fails, &mut budget);
+        let detail = c33_eval(&min).0.into_iter().find(|(rr, ff)| rr == r && ff.class == *class).map(|x| x.1.detail).unwrap_or(f.detail.clone());
+        out.lock().unwrap().push(Violation { signature: class.clone(), witness: witness(&min, r), detail: format!("{detail}  (config {}; history: {})", min.configs.first().cloned().unwrap_or(json!({})), min.describe()) });
+    });
+    let mut res = out.into_inner().unwrap();
+    res.sort_by_cached_key(|v| format!("{}:{}", v.signature, v.witness));
+    for v in res {
+        all.violation(v);
     }
     let states = states.into_inner().unwrap();
     rep.rule = format!(
